@@ -23,33 +23,34 @@ Sig(r) ==
   ELSE [fam |-> "escapers", ctx |-> r.ctx, cause |-> "roundtrip", s |-> r.s]
 
 \* diagnostic only (never a verdict): does the real output equal the transcription's output?
-DriftAsFound(r) == Rendered(r) /\ r.out # Model(r.ctx, r.s, 98)
 DriftFixed(r)   == Rendered(r) /\ r.out # Model(r.ctx, r.s, 102)
+DriftAsFound(r) == Rendered(r) /\ r.out # Model(r.ctx, r.s, 98)          \* differs from DriftFixed for CSS only
 
-(* ---- record walk (skeleton of spec/lib2/Trace_HTMLEscape.tla; bad.ndjson keeps ONE record per
-        distinct signature so that thousands of inputs sharing one cause cannot crowd others out
-        of the 400-record cap; extra counters go to diag.ndjson) ---- *)
-VARIABLES l, nbad, nda, ndf, nskip
+(* ---- record walk (after the skeleton of spec/lib2/Trace_HTMLEscape.tla).  Differences: each
+        record is judged exactly once, in the step that consumes it; the bad records are kept as
+        ONE representative index per distinct signature, at most 400 (bounded, so the walk stays
+        linear; thousands of inputs sharing one cause cannot crowd a different failure out of the
+        cap); extra counters go to diag.ndjson. ---- *)
+VARIABLES l, nbad, nda, ndf, nskip, reps, seen
 Obs == ndJsonDeserialize("obs.ndjson")
-Init == l = 1 /\ nbad = 0 /\ nda = 0 /\ ndf = 0 /\ nskip = 0
+Init == l = 1 /\ nbad = 0 /\ nda = 0 /\ ndf = 0 /\ nskip = 0 /\ reps = <<>> /\ seen = {}
+\* (a value bound by \E over a singleton set is computed once; a LET-bound expression of an action
+\*  is re-evaluated by TLC at each use)
+Judge(r) == [bad |-> ~RecOk(r), df |-> DriftFixed(r), dcss |-> IF r.ctx \in CssCtx THEN DriftAsFound(r) ELSE FALSE]
 Next == /\ l <= Len(Obs) /\ l' = l + 1
-        /\ nbad' = nbad + (IF RecOk(Obs[l]) THEN 0 ELSE 1)
-        /\ nda' = nda + (IF DriftAsFound(Obs[l]) THEN 1 ELSE 0)
-        /\ ndf' = ndf + (IF DriftFixed(Obs[l]) THEN 1 ELSE 0)
-        /\ nskip' = nskip + (IF Rendered(Obs[l]) THEN 0 ELSE 1)
-BadIdx == SelectSeq([i \in 1..Len(Obs) |-> i], LAMBDA i : ~RecOk(Obs[i]))
-RECURSIVE Reps(_, _, _)
-Reps(j, seen, acc) ==                      \* first bad record of each distinct signature, at most 400
-  IF j > Len(BadIdx) \/ Len(acc) >= 400 THEN acc
-  ELSE LET sg == Sig(Obs[BadIdx[j]]) IN
-       IF sg \in seen THEN Reps(j + 1, seen, acc)
-       ELSE Reps(j + 1, seen \cup {sg}, Append(acc, BadIdx[j]))
+        /\ \E v \in {Judge(Obs[l])} :
+           \E new \in {v.bad /\ Len(reps) < 400 /\ Sig(Obs[l]) \notin seen} :
+              /\ nbad' = nbad + (IF v.bad THEN 1 ELSE 0)
+              /\ ndf' = ndf + (IF v.df THEN 1 ELSE 0)
+              /\ nda' = nda + (IF (IF Obs[l].ctx \in CssCtx THEN v.dcss ELSE v.df) THEN 1 ELSE 0)
+              /\ nskip' = nskip + (IF Rendered(Obs[l]) THEN 0 ELSE 1)
+              /\ reps' = IF new THEN Append(reps, l) ELSE reps
+              /\ seen' = IF new THEN seen \cup {Sig(Obs[l])} ELSE seen
 Done == l = Len(Obs) + 1 =>
           /\ ndJsonSerialize("diag.ndjson", <<[records |-> Len(Obs), nbad |-> nbad, drift_asfound |-> nda,
                                                drift_fixed |-> ndf, not_rendered |-> nskip]>>)
           /\ ndJsonSerialize("bad.ndjson",
-               IF nbad = 0 THEN <<>>
-               ELSE LET R == Reps(1, {}, <<>>) IN
-                    [j \in 1..Len(R) |-> [k |-> R[j], id |-> Obs[R[j]].id, sig |-> Sig(Obs[R[j]]), nbad |-> nbad]])
+               IF Len(reps) = 0 THEN <<>> ELSE
+               [j \in 1..Len(reps) |-> [k |-> reps[j], id |-> Obs[reps[j]].id, sig |-> Sig(Obs[reps[j]]), nbad |-> nbad]])
 Consumed == TLCGet("stats").diameter - 1 = Len(Obs)
 =============================================================================
